@@ -41,6 +41,20 @@ Theorem chars_of_encoded_text : forall cs, Forall scalar cs -> chars_of (encode_
 Proof. exact chars_of_encode. Qed.
 Print Assumptions chars_of_encoded_text.
 
+(* (3b) and conversely: the decoder accepts ONLY encodings of scalar-value texts (no overlong form,
+   no surrogate, nothing above U+10FFFF, no truncated sequence) -- valid UTF-8 is exactly the image
+   of the encoder, and decoding gives back the text *)
+From DV Require Import Proofs.Utf8Sound.
+Theorem valid_utf8_is_exactly_the_image_of_the_encoder :
+  forall bs, valid_utf8 bs = true <-> exists cs, Forall scalar cs /\ bs = encode_utf8 cs.
+Proof. exact valid_utf8_iff. Qed.
+Print Assumptions valid_utf8_is_exactly_the_image_of_the_encoder.
+
+Theorem decoded_text_encodes_back :
+  forall bs cs, chars_of bs = Some cs -> Forall scalar cs /\ bs = encode_utf8 cs.
+Proof. exact chars_of_sound. Qed.
+Print Assumptions decoded_text_encodes_back.
+
 (* (4) the byte length stored with a pattern (EdgeLabel::num_bytes = len_utf8) is the length of its
    encoding *)
 Theorem len_utf8_is_encoded_length : forall c, length (encode_char c) = N.to_nat (len_utf8 c).
